@@ -128,3 +128,86 @@ fn c18_wdl_canary() {
     let v = Vec3d::read(&mut src).unwrap();
     assert!(v.x.to_bits() != 7, "canary: must be reported as failing");
 }
+
+// ------------------------------------------------------------------ C18.f the WDL file writer: MAOF offsets vs. what is written
+// WdlParser::write on a map with three tiles (the middle one without a holes entry), contents symbolic: every
+// MAOF entry of a present tile is the absolute file offset of that tile's MARE chunk (magic, declared size 1090,
+// the tile's heights), a MAHO chunk follows exactly the tiles that have holes (and never in a version without
+// MAHO), absent tiles have offset 0, the chunks tile the file up to its end.
+fn rd32(b: &[u8], o: usize) -> u32 { u32::from_le_bytes([b[o], b[o + 1], b[o + 2], b[o + 3]]) }
+fn rd16(b: &[u8], o: usize) -> i16 { i16::from_le_bytes([b[o], b[o + 1]]) }
+
+const MARE_BYTES: usize = 8 + 545 * 2;
+const MAHO_BYTES: usize = 8 + 32;
+
+fn wdl_writer_offsets(version: WdlVersion, holes_on: [bool; 3]) {
+    use super::parser::WdlParser;
+    let tiles: [(u32, u32); 3] = [(3, 0), (5, 0), (0, 1)];
+    let mut f = WdlFile::new();
+    f.version = version;
+    f.version_number = version.version_number();
+    let hv: [i16; 3] = kani::any();
+    let hi: [i16; 3] = kani::any();
+    let masks: [u16; 3] = kani::any();
+    let mut k = 0;
+    while k < 3 {
+        let mut t = HeightMapTile::new();
+        t.outer_values[0] = hv[k];
+        t.inner_values[255] = hi[k];
+        f.heightmap_tiles.insert(tiles[k], t);
+        if holes_on[k] {
+            let mut h = HolesData::new();
+            h.hole_masks[15] = masks[k];
+            f.holes_data.insert(tiles[k], h);
+        }
+        k += 1;
+    }
+    let mut out = Sink::<20480>::new();
+    let r = WdlParser::with_version(version).write(&mut out, &f);
+    assert!(r.is_ok(), "writing a valid WDL map fails");
+    let b = &out.buf;
+    // MVER (12 bytes), then MAOF
+    assert!(rd32(b, 4) == 4 && rd32(b, 8) == 18, "MVER chunk");
+    let maof = 12;
+    assert!(rd32(b, maof + 4) == 64 * 64 * 4, "MAOF declares another size than 4096 offsets");
+    let has_maho = version.has_maho_chunk();
+    let mut expect = maof + 8 + 64 * 64 * 4;
+    let mut k = 0;
+    while k < 3 {
+        let idx = (tiles[k].1 * 64 + tiles[k].0) as usize;
+        let off = rd32(b, maof + 8 + 4 * idx) as usize;
+        assert!(off == expect, "MAOF entry of a present tile is not the file offset of its MARE chunk");
+        assert!(b[off] == b'E' && b[off + 1] == b'R' && b[off + 2] == b'A' && b[off + 3] == b'M',
+            "MAOF entry does not point at a MARE chunk");
+        assert!(rd32(b, off + 4) as usize == 545 * 2, "MARE chunk declares another size than 545 heights");
+        assert!(rd16(b, off + 8) == hv[k] && rd16(b, off + 8 + 2 * (289 + 255)) == hi[k], "MARE chunk at the MAOF offset holds another tile's heights");
+        expect += MARE_BYTES;
+        if has_maho && holes_on[k] {
+            assert!(b[expect] == b'O' && b[expect + 1] == b'H' && b[expect + 2] == b'A' && b[expect + 3] == b'M',
+                "holes chunk does not follow its tile's heights");
+            assert!(rd32(b, expect + 4) == 32 && u16::from_le_bytes([b[expect + 8 + 30], b[expect + 8 + 31]]) == masks[k], "MAHO content");
+            expect += MAHO_BYTES;
+        }
+        k += 1;
+    }
+    kani::cover!(out.pos == expect);
+    assert!(out.pos == expect, "file length differs from header chunks + MAOF + the tiles' chunks");
+    // every other MAOF entry is 0
+    let j: usize = kani::any();
+    kani::assume(j < 4096 && j != 3 && j != 5 && j != 64);
+    assert!(rd32(b, maof + 8 + 4 * j) == 0, "absent tile has a non-zero MAOF offset");
+    std::mem::forget((f, r));
+}
+
+macro_rules! wdl_writer {
+    ($name:ident, $ver:expr, $holes:expr) => {
+        #[kani::proof]
+        #[kani::stub(std::fmt::format, vio::fmt_stub)]
+        #[kani::unwind(4100)]
+        fn $name() { wdl_writer_offsets($ver, $holes) }
+    };
+}
+wdl_writer!(c18f_wdl_writer_offsets_wotlk_middle_without_holes, WdlVersion::Wotlk, [true, false, true]);
+wdl_writer!(c18f_wdl_writer_offsets_wotlk_no_holes, WdlVersion::Wotlk, [false, false, false]);
+wdl_writer!(c18f_wdl_writer_offsets_vanilla, WdlVersion::Vanilla, [true, false, true]);
+wdl_writer!(c18f_wdl_writer_offsets_legion_all_holes, WdlVersion::Legion, [true, true, true]);
